@@ -15,6 +15,7 @@ import (
 	"io"
 	"net"
 	"runtime"
+	"sync/atomic"
 	"testing"
 	"time"
 
@@ -42,6 +43,22 @@ func c04usage(rm network.ResourceManager) c04u {
 	return u
 }
 
+// c04CountingRM counts the connections the gated listener has opened, so that an attempt is
+// over only when the server has actually taken the client's connection (a connection the
+// kernel completed may be accepted late, after the client is long gone)
+type c04CountingRM struct {
+	network.ResourceManager
+	opened atomic.Int64
+}
+
+func (c *c04CountingRM) OpenConnection(dir network.Direction, usefd bool, endpoint ma.Multiaddr) (network.ConnManagementScope, error) {
+	s, err := c.ResourceManager.OpenConnection(dir, usefd, endpoint)
+	if err == nil {
+		c.opened.Add(1)
+	}
+	return s, err
+}
+
 func c04wait(timeout time.Duration, f func() bool) bool {
 	dl := time.Now().Add(timeout)
 	for {
@@ -65,11 +82,12 @@ func TestVerifC04Tcpreuse(t *testing.T) {
 	identifyConnTimeout = 300 * time.Millisecond
 	defer func() { identifyConnTimeout = old }()
 
-	rm, err := rcmgr.NewResourceManager(rcmgr.NewFixedLimiter(rcmgr.InfiniteLimits))
+	rm0, err := rcmgr.NewResourceManager(rcmgr.NewFixedLimiter(rcmgr.InfiniteLimits))
 	if err != nil {
 		t.Fatal(err)
 	}
-	defer rm.Close()
+	defer rm0.Close()
+	rm := &c04CountingRM{ResourceManager: rm0}
 	upg, err := tptu.New(nil, nil, nil, rm, nil)
 	if err != nil {
 		t.Fatal(err)
@@ -127,6 +145,11 @@ func TestVerifC04Tcpreuse(t *testing.T) {
 			runtime.GC()
 			baseG := runtime.NumGoroutine()
 			b := c04usage(rm)
+			opened0 := rm.opened.Load()
+			if b != (c04u{}) {
+				out.Cover("tcpreuse.baseline_not_at_rest")
+				continue
+			}
 			conn, err := net.DialTimeout("tcp", hostport, 2*time.Second)
 			if err != nil {
 				t.Fatal(err)
@@ -156,11 +179,18 @@ func TestVerifC04Tcpreuse(t *testing.T) {
 				conn.Close()
 			}
 			var d c04u
-			c04wait(3*time.Second, func() bool {
+			taken := c04wait(5*time.Second, func() bool {
 				u := c04usage(rm)
 				d = c04u{u.conns - b.conns, u.fd - b.fd, u.mem - b.mem}
-				return d == c04u{} && runtime.NumGoroutine() <= baseG
+				return rm.opened.Load() > opened0 && d == c04u{} && runtime.NumGoroutine() <= baseG
 			})
+			if !taken && rm.opened.Load() == opened0 {
+				// the server never took this connection within the time allowed: nothing to judge yet;
+				// wait for it to be taken and released before the next attempt
+				out.Cover("tcpreuse.connection_not_taken_in_time")
+				c04wait(10*time.Second, func() bool { return rm.opened.Load() > opened0 && c04usage(rm) == c04u{} })
+				continue
+			}
 			gl := int64(runtime.NumGoroutine() - baseG)
 			if gl < 0 {
 				gl = 0
